@@ -77,9 +77,18 @@ pub fn is_label_name(s: &str) -> bool {
     true
 }
 
+/// Appends a multi-byte suffix to every label of the program (definitions, declarations and operands alike): label names may
+/// contain any Unicode word character after the first one.
+pub fn widen_labels(stmts: &mut [GStmt], suffix: &str) {
+    for st in stmts.iter_mut() {
+        for l in st.labels.iter_mut() { l.push_str(suffix); }
+        match &mut st.k { K::External(l) | K::Fill(PcOp::Label(l)) => l.push_str(suffix), k => if let Some((PcOp::Label(l), _)) = k.pc_operand_mut() { l.push_str(suffix); } }
+    }
+}
+
 pub fn gen_label_name(rng: &mut Rng) -> String {
-    const STEMS: [&str; 24] = ["loop", "Done", "DATA", "msg", "ptr", "Next", "skip", "SUB", "buf", "val", "Top", "end_", "_tmp", "k", "Brx",
-        "halt_", "outer", "INNER", "ret_", "Zed", "w", "go", "Tbl", "y"];
+    const STEMS: [&str; 28] = ["loop", "Done", "DATA", "msg", "ptr", "Next", "skip", "SUB", "buf", "val", "Top", "end_", "_tmp", "k", "Brx",
+        "halt_", "outer", "INNER", "ret_", "Zed", "w", "go", "Tbl", "y", "R2D2", "r0_save", "R7Backup", "R1x"];
     loop {
         let mut s = String::new();
         if rng.chance(3, 4) { s.push_str(STEMS[rng.usize(STEMS.len())]); } else {
@@ -444,7 +453,11 @@ impl<'a> R<'a> {
         let xc = match self.st.case { 0 => 'x', 1 => 'X', _ => if self.rng.bool() { 'x' } else { 'X' } };
         let hexup = self.rng.bool();
         let hex = |m: u32| if hexup { format!("{m:X}") } else { format!("{m:x}") };
-        let s = if v < 0 {
+        let s = if v == 0 && !self.st.plain && self.rng.chance(1, 8) {
+            // zero written in a signed notation
+            self.feat("num:signed-zero");
+            match self.rng.below(3) { 0 => format!("#-{lead}0"), 1 => format!("-{lead}0"), _ => format!("{xc}-{lead}0") }
+        } else if v < 0 {
             let m = (-(v as i64)) as u32;
             match if self.st.plain { 0 } else { self.rng.below(3) } {
                 0 => { self.feat("num:#-n"); format!("#-{lead}{m}") }
